@@ -28,7 +28,14 @@ func (g *lazyGen) lab(s string) { g.labels[s] = true }
 // argExpr: an argument expression with a traced effect, using the caller's local v (value known)
 func (g *lazyGen) argExpr(callerLocal string) *Node {
 	g.nextV++
-	switch rapid.IntRange(0, 6).Draw(g.t, "argk") {
+	switch rapid.IntRange(0, 8).Draw(g.t, "argk") {
+	case 7:
+		// a bare variable: its value at the FIRST force is the argument's value for good
+		g.lab("argument-is-bare-variable")
+		return NVar("cnt")
+	case 8:
+		g.lab("argument-is-bare-variable")
+		return NVar(callerLocal)
 	case 0:
 		return NTrace(NInt(int64(g.nextV)))
 	case 1:
@@ -99,7 +106,11 @@ func (g *lazyGen) genLazyFn(name string, forceUnary bool) lazyFn {
 			continue
 		}
 		if strings.HasPrefix(p, "#") {
-			switch rapid.IntRange(0, 7).Draw(g.t, "lazyuse") {
+			switch rapid.IntRange(0, 8).Draw(g.t, "lazyuse") {
+			case 8:
+				// the variable the argument may read is reassigned between two forces: memoised means unchanged
+				g.lab("forced-reassigned-forced")
+				uses = append(uses, NTrace(NPrim("force", NVar(p))), NSet("cnt", NPrim("+", NVar("cnt"), NInt(100))), NTrace(NPrim("force", NVar(p))))
 			case 0:
 				g.lab("never-forced")
 			case 1:
